@@ -13,7 +13,7 @@ RULE = (
     "replacement {default mock, plain function, bound method, callable object, an explicitly passed Mock, new_callable=, non-callable, classmethod(f), staticmethod(f) - the last two on class attributes only} x "
     "activation {context manager, function decorator, class decorator (goes through patcher.copy()), start/stop} x exit path {normal, exception, stop(), stopall()} x "
     "composition {single, nested on the same target with a second replacement, nested with the SAME replacement object, sequential} x entry point {patch('mod.attr'), patch.object} is "
-    "ENUMERATED COMPLETELY on a synthetic module registered in sys.modules. Class attributes are reached through the owner, a subclass and the owner again (methods: an instance of each) during the same patch. Inside the patch the sync call, "
+    "ENUMERATED COMPLETELY on a synthetic module registered in sys.modules. Class attributes are reached through the owner, a subclass, an instance of each and the owner again during the same patch. Inside the patch the sync call, "
     ".asynq().value(), yielding .asynq() from a task and asyncio.run(.asyncio()) must all reach the replacement with the "
     "same recorded arguments (ending with the given ones; exactly the given ones for non-descriptor replacements and staticmethod(f), the class reached through + the given ones for classmethod(f)) and return the same result; a non-callable replacement must be "
     "installed as is; after every exit path the owner's __dict__ entry IS the original object. "
@@ -83,9 +83,13 @@ def accessor(mod, target):
         sub = mod.Sub()
         return [("instance", lambda: inst.meth, mod.Cls), ("subclass instance", lambda: sub.meth, mod.Sub), ("instance again", lambda: inst.meth, mod.Cls)]
     if target in ("cmeth", "smeth"):
+        inst = mod.Cls()
+        sub = mod.Sub()
         return [
             ("owner class", lambda: getattr(mod.Cls, target), mod.Cls),
             ("subclass", lambda: getattr(mod.Sub, target), mod.Sub),
+            ("instance", lambda: getattr(inst, target), mod.Cls),
+            ("subclass instance", lambda: getattr(sub, target), mod.Sub),
             ("owner class again", lambda: getattr(mod.Cls, target), mod.Cls),
         ]
     return [("owner class", lambda: mod.Cls.CONST, mod.Cls)]
